@@ -9,7 +9,8 @@ from .base import Check
 
 UPDATE_METHODS = {"event::CheckResult", "event::SetNextCheck", "event::SetLastCheckStarted", "event::SetNextNotification",
                   "event::SetForceNextCheck", "event::SetForceNextNotification", "event::SetAcknowledgement",
-                  "event::ClearAcknowledgement", "event::UpdateExecutions", "event::ExecutedCommand"}
+                  "event::ClearAcknowledgement", "event::UpdateExecutions", "event::ExecutedCommand",
+                  "event::SetRemovalInfo"}
 
 
 def _load_gen():
@@ -63,23 +64,10 @@ def c13_own_zone_sender_not_checked(clause, c):
             and c["sender"] == "a%d" % c["forest"].local)
 
 
-def c13_update_certificate_without_endpoint(clause, c):
-    """F-C13b: pki::UpdateCertificate on a connection that has no endpoint."""
-    return (clause == "anonymous_only_certificate" and c["method"] == "pki::UpdateCertificate"
-            and c["sender"][0] in "xun")
+# F-C13b (pki::UpdateCertificate without endpoint, /repo ba4edd4) and F-C13c (event::SetRemovalInfo ignoring the
+# object's zone, /repo cc1e22f) are repaired: they have no classifier any more, a recurrence is a plain VIOLATION.
 
-
-def c13_removal_info_ignores_object_zone(clause, c):
-    """F-C13c: event::SetRemovalInfo from the receiver's own zone or a zone above it, for a comment that lies
-    outside the receiver's zone subtree (and in no global zone)."""
-    f = c["forest"]
-    if not (clause == "applied_only_if_entitled" and c["method"] == "event::SetRemovalInfo" and c["sender"][0] == "a"):
-        return False
-    return f.below(f.local, int(c["sender"][1:])) and not f.within(c["objzone"], f.local)
-
-
-CLASSIFIERS = {f.__name__: f for f in (c13_own_zone_sender_not_checked, c13_update_certificate_without_endpoint,
-                                       c13_removal_info_ignores_object_zone)}
+CLASSIFIERS = {f.__name__: f for f in (c13_own_zone_sender_not_checked,)}
 
 
 class C13(Check):
@@ -87,12 +75,11 @@ class C13(Check):
     required_theorems = ["table_covers_registered_methods", "all_methods_listed", "ofName_name",
                          "accept_implies_entitled_zone_internal", "accept_implies_entitled_config",
                          "accept_implies_entitled_command", "accept_implies_entitled_session",
-                         "accept_implies_entitled_update_from_other_zone",
-                         "accept_implies_entitled_removal_info_partial", "accept_implies_entitled_cert_update_partial",
+                         "accept_implies_entitled_cert_update", "accept_implies_entitled_update_from_other_zone",
+                         "removal_info_only_from_own_zone_or_above",
                          "accept_implies_entitled_partial", "accept_implies_entitled_counterexample",
                          "accept_implies_entitled_counterexample_claimed_origin", "own_zone_sender_is_not_checked",
-                         "anonymous_only_certificate_partial", "anonymous_only_certificate_counterexample",
-                         "removal_info_counterexample", "refused_is_noop", "heartbeat_is_noop", "entitledB_sound"]
+                         "anonymous_only_certificate", "refused_is_noop", "heartbeat_is_noop", "entitledB_sound"]
     technique = ("Lean 4 proof (decision logic stated outright over an arbitrary zone forest) about a hand-written decision table with one row "
                  "per registered JSON-RPC method (row set forced by a table regenerated from REGISTER_APIFUNCTION on every run); correspondence "
                  "by driving every registered ApiFunction through the real JsonRpcConnection::MessageHandler on an in-process cluster node "
@@ -100,10 +87,10 @@ class C13(Check):
     level_text = ("Machine-checked theorems (Lean 4 kernel) over ALL zone forests, contexts and walk fuels: a message that gets past the guards of "
                   "its handler comes from an authenticated, configured endpoint whose zone is entitled to it — in full for zone-internal bookkeeping "
                   "(8 methods), config::Update/UpdateObject/DeleteObject incl. accept_config, event::ExecuteCommand incl. accept_commands, "
-                  "Hello/SetLogPosition/Heartbeat; for state/event updates, check results and execution results under the hypothesis 'sender "
-                  "not in the receiver's own zone', for SetRemovalInfo under 'object inside the receiver's zone subtree', for "
-                  "pki::UpdateCertificate and the anonymous clause under 'connection has an endpoint' — each excluded case with a kernel-checked "
-                  "counterexample that the harness reproduces on the real code (known findings F-C13a/b/c). The decision table is tied to the code "
+                  "Hello/SetLogPosition/Heartbeat, pki::UpdateCertificate, and 'anonymous connections get nothing but the certificate request past "
+                  "the guards' in full; for state/event updates (incl. SetRemovalInfo), check results and execution results under the hypothesis "
+                  "'sender not in the receiver's own zone' — the excluded case with a kernel-checked "
+                  "counterexample that the harness reproduces on the real code (known finding F-C13a; F-C13b/c were found by this check and are repaired). The decision table is tied to the code "
                   "by invoking all 28 registered methods through the real MessageHandler for every sender/origin/object-zone relation in a 7-zone "
                   "forest of depth 3 from three receiver positions plus seeded random forests, authenticated/unverified/unconfigured/anonymous "
                   "senders, accept_config/accept_commands on/off, and comparing 'anything changed' (all objects serialised, data directory, "
